@@ -62,7 +62,7 @@ def _attr_history_run(pid, tier, seed, kinds, count_q, count_t, pred, rule, cfg_
         cfg = cfg_gen(rng) if cfg_gen else {}
         h = H.gen_history(rng, n, max_len=_sizes(tier, *max_len), kinds=kinds)
         cases.append({"rules": rules, "config": cfg, "history": h, "attr": True, "pipe": pipe, "sym": sym,
-                      "nomodel": any(o[0] in ("scc", "build") for o in h)})
+                      "nomodel": any(o[0] in ("build",) for o in h)})
     pre = [c for c in load_corpus(pid) if not c.get("filter_direct")]
     for c in pre:
         c["attr"] = True; c.setdefault("pipe", pipe); c.setdefault("sym", sym)
@@ -235,7 +235,7 @@ def run_C01(tier, seed):
         st = rng.choice(STRATEGIES)
         if st[0] == "min":       # minimal-space expansion alone is not a complete strategy for attractors (MAAs may sit in stubs)
             st = ("aseeds", None)
-        model_ok = st[0] in ("bfs", "dfs", "block", "aseeds")
+        model_ok = st[0] in ("bfs", "dfs", "block", "aseeds", "scc")
         cases.append({"rules": rules, "config": {}, "history": [st, ("seeds_all",)], "attr": True, "nomodel": not model_ok, "global_seeds": True})
     corpus = load_corpus("C01")
     cases = [c for c in corpus if not c.get("filter_direct")] + cases
